@@ -23,6 +23,7 @@ INVARIANT TableUnimodular
 INVARIANT TableCentroFlag
 INVARIANT TableLookupUnique
 INVARIANT TableCentering
+INVARIANT TableSettings
 INVARIANT ReduceShrinks
 INVARIANT RoundTrip
 """
@@ -35,7 +36,7 @@ def table_rows():
     for _, v in d.items():
         for x in v:
             number, short, sch, full, intl, pg, choice, centering, symops, centro = x
-            rows.append(dict(number=int(number), choice=choice, centering=centering,
+            rows.append(dict(number=int(number), choice=choice, centering=centering, lab=[ord(ch) for ch in choice],
                              centro=bool(centro), ops=[int(s) for s in symops]))
     return rows
 
